@@ -22,6 +22,37 @@ void Monitor::fail(const std::string &prop, const std::string &rule, const std::
         viol.at_svc = svc_calls;
 }
 
+static bool prop_in(const std::string &list, const std::string &one)
+{
+        size_t pos = 0;
+        while (pos <= list.size()) {
+                size_t c = list.find(',', pos);
+                if (list.substr(pos, c == std::string::npos ? std::string::npos : c - pos) == one)
+                        return true;
+                if (c == std::string::npos)
+                        break;
+                pos = c + 1;
+        }
+        return false;
+}
+
+bool Monitor::fail_soft(const std::string &prop, const std::string &rule, const std::string &detail)
+{
+        if (viol.set() || desync || off)
+                return true;
+        if (!focus.empty() && focus != "any" && !prop_in(prop, focus)) {
+                if (!soft_other.set()) {
+                        soft_other.prop = prop;
+                        soft_other.rule = rule;
+                        soft_other.detail = detail;
+                        soft_other.at_svc = svc_calls;
+                }
+                return true;
+        }
+        fail(prop, rule, detail);
+        return false;
+}
+
 bool Monitor::partial_line() const
 {
         for (char c : cur_line)
@@ -279,10 +310,10 @@ void Monitor::on_handler(int cmd, int kind, int fsm, const bytes &data, size_t s
         else if (kind == K_READ || kind == K_TEST)
                 ok = data == it.data && size == it.data.size() && (int)extra == it.maxsize;
         if (!ok) {
-                fail(it.tag, it.rule,
-                     what + " size=" + std::to_string(size) + " extra=" + std::to_string(extra) + "; expected \"" + vis(it.data) + "\" size=" + std::to_string(it.data.size()) +
-                         " extra=" + std::to_string(kind == K_WRITE ? it.args_num : it.maxsize));
-                return;
+                if (!fail_soft(it.tag, it.rule,
+                               what + " size=" + std::to_string(size) + " extra=" + std::to_string(extra) + "; expected \"" + vis(it.data) + "\" size=" +
+                                   std::to_string(it.data.size()) + " extra=" + std::to_string(kind == K_WRITE ? it.args_num : it.maxsize)))
+                        return;
         }
         matched_step = it.step;
         if (fsm == FSM_EV)
@@ -718,7 +749,7 @@ void Monitor::on_busy(int r)
         if (stray) {
                 if (r == ST_OK && partial_line()) {
                         stray = false;
-                        fail("C18", "busy-ok-while-work-in-flight", "cat_is_busy returned OK but a command line is partially received (\"" + vis(cur_line) +
+                        fail_soft("C18", "busy-ok-while-work-in-flight", "cat_is_busy returned OK but a command line is partially received (\"" + vis(cur_line) +
                                                                          "\"; its answer \"" + vis(cur_unit) + "\" was emitted before the line was complete)");
                 }
                 return;
@@ -736,9 +767,9 @@ void Monitor::on_busy(int r)
                 else if (!cands.empty())
                         why = "an output unit is partially emitted (\"" + vis(cur_unit) + "\")";
                 if (!why.empty())
-                        fail("C18", "busy-ok-while-work-in-flight", "cat_is_busy returned OK but " + why);
+                        fail_soft("C18", "busy-ok-while-work-in-flight", "cat_is_busy returned OK but " + why);
         } else if (last_svc_ok && !stimulus_since_ok && !partial_line() && cmdq.empty() && evq.empty() && cands.empty()) {
-                fail("C18", "busy-while-quiescent", "cat_is_busy returned BUSY although cat_service reported OK, no line is partially received and nothing happened since");
+                fail_soft("C18", "busy-while-quiescent", "cat_is_busy returned BUSY although cat_service reported OK, no line is partially received and nothing happened since");
         }
 }
 
@@ -750,9 +781,9 @@ void Monitor::on_hold_query(int r)
                 return;
         st.hold_samples++;
         if (hold_phase == 1 && r != ST_HOLD)
-                fail("C14,C18", "is-hold-false-during-hold", "cat_is_hold returned OK while a command is suspended and no release was requested");
+                fail_soft("C14,C18", "is-hold-false-during-hold", "cat_is_hold returned OK while a command is suspended and no release was requested");
         else if (hold_phase == 0 && r == ST_HOLD)
-                fail("C14,C18", "is-hold-true-outside-hold", "cat_is_hold returned HOLD although no command is suspended");
+                fail_soft("C14,C18", "is-hold-true-outside-hold", "cat_is_hold returned HOLD although no command is suspended");
 }
 
 void Monitor::on_buffered(int cmd, int type, int r)
@@ -773,12 +804,12 @@ void Monitor::on_buffered(int cmd, int type, int r)
         if (must_busy) {
                 st.buffered_must++;
                 if (r != ST_BUSY)
-                        fail("C13", "buffered-query-ok-for-pending-event", "cat_is_unsolicited_event_buffered(cmd " + std::to_string(cmd) + ", type " + std::to_string(type) +
+                        fail_soft("C13", "buffered-query-ok-for-pending-event", "cat_is_unsolicited_event_buffered(cmd " + std::to_string(cmd) + ", type " + std::to_string(type) +
                                                                                ") returned OK although such an event was accepted and is not finished");
         } else if (!any && evs.empty() && evq.empty() && last_svc_ok && !stimulus_since_ok) {
                 st.buffered_must++;
                 if (r != ST_OK)
-                        fail("C13", "buffered-query-busy-with-nothing-pending", "cat_is_unsolicited_event_buffered(cmd " + std::to_string(cmd) + ") returned BUSY although the parser is quiescent");
+                        fail_soft("C13", "buffered-query-busy-with-nothing-pending", "cat_is_unsolicited_event_buffered(cmd " + std::to_string(cmd) + ") returned BUSY although the parser is quiescent");
         } else if (!any) {
                 // nothing accepted-and-unfinished matches this (command, type); the only other thing the library may
                 // still hold is the event that finished last
@@ -786,7 +817,7 @@ void Monitor::on_buffered(int cmd, int type, int r)
                 if (!last_matches) {
                         st.buffered_must++;
                         if (r != ST_OK)
-                                fail("C13", "buffered-query-busy-for-other-event", "cat_is_unsolicited_event_buffered(cmd " + std::to_string(cmd) + ", type " + std::to_string(type) +
+                                fail_soft("C13", "buffered-query-busy-for-other-event", "cat_is_unsolicited_event_buffered(cmd " + std::to_string(cmd) + ", type " + std::to_string(type) +
                                                                                      ") returned BUSY although no event of that command and type is pending or in progress");
                 }
         }
@@ -800,7 +831,7 @@ void Monitor::on_processed(int fsm, int cmd)
         for (auto &e : evs)
                 if (e.total > 0 && e.remaining > 0 && e.remaining < e.total) {
                         if (cmd != e.cmd)
-                                fail("C13", "processed-command-wrong-during-event", "cat_get_processed_command(UNSOLICITED) returned cmd " + std::to_string(cmd) + " while the event on cmd " +
+                                fail_soft("C13", "processed-command-wrong-during-event", "cat_get_processed_command(UNSOLICITED) returned cmd " + std::to_string(cmd) + " while the event on cmd " +
                                                                                         std::to_string(e.cmd) + " is in progress");
                         return;
                 }
@@ -814,7 +845,7 @@ void Monitor::on_processed(int fsm, int cmd)
                 if (e.total > 0)
                         break;
         }
-        fail("C13", "processed-command-not-pending", "cat_get_processed_command(UNSOLICITED) returned cmd " + std::to_string(cmd) + " which is neither in progress nor just finished");
+        fail_soft("C13", "processed-command-not-pending", "cat_get_processed_command(UNSOLICITED) returned cmd " + std::to_string(cmd) + " which is neither in progress nor just finished");
 }
 
 bool Monitor::config_idle() const { return off || (cmdq.empty() && !partial_line() && hold_phase == 0); }
